@@ -67,6 +67,10 @@ type ArchiveDecoder struct {
 	// Set once the first entry (the root of the archive, which has no name)
 	// has been returned. Every entry after that needs a name.
 	started bool
+
+	// Set when the root of the archive is not a directory (an archive of a
+	// single file, symlink or device). Such an archive has no further entries.
+	leafRoot bool
 }
 
 // NewArchiveDecoder initializes a decoder for a catar archive.
@@ -171,6 +175,15 @@ loop:
 	// entry anywhere else would replace the directory it is in.
 	if name == "" && a.started {
 		return nil, InvalidFormat{"entry without a name"}
+	}
+	// An archive whose root is a file, symlink or device holds just that one
+	// entry. A later entry would be created through whatever the root entry put
+	// at the destination path, a symlink to anywhere for example.
+	if a.leafRoot {
+		return nil, InvalidFormat{"entry after a root entry that is not a directory"}
+	}
+	if name == "" && (payload != nil || device != nil || symlink != nil) {
+		a.leafRoot = true
 	}
 	a.started = true
 
